@@ -115,16 +115,20 @@ func CSVConsumer(opts ...CSVOpt) Consumer {
 			}
 
 			v := reflect.Indirect(reflect.ValueOf(data))
+			if !v.IsValid() {
+				return errors.New("nil destination for CSVConsumer")
+			}
 			t := v.Type()
 
 			switch {
-			case t.Kind() == reflect.Slice && t.Elem().Kind() == reflect.Slice && t.Elem().Elem().Kind() == reflect.String:
+			case t.Kind() == reflect.Slice && t.Elem() == csvRecordType:
 				csvWriter := &csvRecordsWriter{}
 				// writer options are ignored
 				if err := pipeCSV(csvWriter, csvReader, o); err != nil {
 					return err
 				}
 
+				v.SetLen(0) // the destination may already hold more records than the input
 				v.Grow(len(csvWriter.records))
 				v.SetCap(len(csvWriter.records)) // in case Grow was unnessary, trim down the capacity
 				v.SetLen(len(csvWriter.records))
@@ -238,11 +242,12 @@ func CSVProducer(opts ...CSVOpt) Producer {
 			})
 
 			pipe.Go(func() error {
-				defer func() {
-					_ = r.Close()
-				}()
+				err := pipeCSV(csvWriter, csvReader, o)
+				// a writer still blocked on the pipe fails with the reader's error rather than
+				// io.ErrClosedPipe: whichever goroutine reports first, the error is the same
+				_ = r.CloseWithError(err)
 
-				return pipeCSV(csvWriter, csvReader, o)
+				return err
 			})
 
 			return pipe.Wait()
@@ -254,16 +259,20 @@ func CSVProducer(opts ...CSVOpt) Producer {
 			}
 			rdr := bytes.NewBuffer(buf)
 			csvReader := csv.NewReader(rdr)
+			o.applyToReader(csvReader)
 
 			return bufferedCSV(csvWriter, csvReader, o)
 
 		default:
 			// support [][]string, []byte, string (or pointers to those)
 			v := reflect.Indirect(reflect.ValueOf(data))
+			if !v.IsValid() {
+				return errors.New("nil data for CSVProducer")
+			}
 			t := v.Type()
 
 			switch {
-			case t.Kind() == reflect.Slice && t.Elem().Kind() == reflect.Slice && t.Elem().Elem().Kind() == reflect.String:
+			case t.Kind() == reflect.Slice && t.Elem() == csvRecordType:
 				csvReader := &csvRecordsWriter{
 					records: make([][]string, v.Len()),
 				}
